@@ -70,7 +70,7 @@ def build(case):
     rng = np.random.default_rng(case['seed'])
     k = int(rng.choice([1, 2, 2, 3, 3, 4]))
     if case.get('many'):
-        k = 130                # more probes than a signed byte can number
+        k = case['many'] if isinstance(case['many'], int) and case['many'] > 1 else 130                # more probes than a signed byte (130) / a byte (260) can number
     if case['seed'][2] % 40 == 17:
         k = int(rng.integers(9, 12))          # many probes (more than 8: orders that a hash-based container would not keep)
     n_samples = int(rng.integers(10, 40))
@@ -123,6 +123,8 @@ def build(case):
             # curation left the LOWEST cluster ids of a later probe without spikes (merged into a new, higher id)
             lo = np.unique(s.clusters)[:2]
             s.spike_clusters = np.where(np.isin(s.clusters, lo), s.clusters.max() + 1, s.clusters).astype(s.clusters.dtype)
+        if case['seed'][2] % 5 == 3 and p % 2 == 0:
+            s.notes['params_style'] = 'upper'           # N_CHANNELS_DAT = ... in the params.py of the first, third ... probe
         if rng.random() < 0.25:
             s.notes['fortran'] = 'all'            # column-major .npy files (MATLAB exporters), in any probe incl. the first
         if p == nonfinite:
@@ -136,7 +138,7 @@ def build(case):
                 gap_ids = [c for c in range(int(ids.max())) if c not in set(ids.tolist())][:3] if rng.random() < 0.4 else []
                 for c in sorted(ids.tolist() + gap_ids):
                     if rng.random() < 0.8:
-                        v = ['good', 'mua', 'noise'][int(rng.integers(0, 3))] if 'KSLabel' in t else \
+                        v = (['good', 'mua', 'noise'] if case['seed'][2] % 6 != 3 else ['m\u00e4\u00dfig', 'gut\u2713', 'noise'])[int(rng.integers(0, 3))] if 'KSLabel' in t else \
                             (repr(float(np.round(rng.uniform(0, 100), 3))) if rng.random() < 0.8 else ['0.0', '0'][int(rng.integers(0, 2))])
                         rows.append('%d\t%s' % (c, v))
                 s.tsv[t] = '\n'.join(rows) + '\n'
@@ -153,13 +155,18 @@ def build(case):
             sm = sm - sm[0] + start
             start = int(sm[-1])
             specs[p].spike_samples = sm.astype(specs[p].spike_samples.dtype)
+    if k >= 2 and case['seed'][2] % 13 == 4 and not case.get('finite_only'):
+        # the first probe's recording spans more than 2**31 samples, the last probe ends much sooner
+        sm = specs[0].spike_samples.astype(np.int64)
+        sm[-max(1, len(sm) // 4):] += 2 ** 31 + 54321
+        specs[0].spike_samples = sm.astype(specs[0].spike_samples.dtype)
     if k >= 2 and rng.random() < 0.1 and nonfinite < 0 and not case.get('finite_only'):      # (C14: amplitudes of a signal-free template are 0/0)
         specs[-1].templates[-1] = 0             # the very last template of the last probe has no signal at all
     return specs, {'k': k, 'mat_mode': mat_mode, 'tsv_mode': tsv_mode, 'dt_ind': dt_ind}
 
 
 def read_tsv(path):
-    with open(path, newline='') as f:
+    with open(path, newline='', encoding='utf-8') as f:
         rows = list(csv.reader(f, delimiter='\t'))
     return rows[0][1], {int(r[0]): r[1] for r in rows[1:] if r}
 
@@ -261,6 +268,25 @@ def _run(case, ctx, d, which):
         if r0.ok:
             ctx.note('merge_succeeded_without_an_input_file')
             call(r0.value.close)
+    if k >= 2 and case['seed'][2] % 7 == 2:
+        # history: merge, then one probe's clock is re-aligned (its spike times shift by a few samples, same number of spikes), then
+        # merge() again on the SAME Merger object; the second merge is the one judged, against the inputs as they are now
+        r0 = call(merger.merge)
+        if r0.ok:
+            call(r0.value.close)
+        pv = case['seed'][2] % k
+        sv = specs[pv]
+        sv.spike_samples = (sv.spike_samples.astype(np.int64) + 5).astype(sv.spike_samples.dtype)
+        np.save(os.path.join(subdirs_s[pv], sv._name('spike_times.npy') if sv.names == 'ks' else 'spike_times.npy'), sv._vec(sv.spike_samples.astype(sv.dtype_times)))
+        ctx.cell('times_shifted_between_merges')
+        f0 = dict(f0, remerged_after_shift=True)
+        times_l = [s_.spike_samples.astype(np.int64) for s_ in specs]
+        concat_t = np.concatenate(times_l)
+        probe_of = np.concatenate([np.full(len(t_), p_) for p_, t_ in enumerate(times_l)])
+        idx_in = np.concatenate([np.arange(len(t_)) for t_ in times_l])
+        order = np.lexsort((idx_in, probe_of, concat_t))
+        desc['probes'] = [s.describe() for s in specs]
+        before = [snapshot(sd) for sd in subdirs_s]
     if k >= 2 and case['seed'][2] % 7 == 5:
         # history: merge, curation goes on in the first probe (a cluster is split: one more cluster id there), then
         # merge() again on the SAME Merger object; the second merge is the one judged, against the inputs as they are now
